@@ -15,16 +15,16 @@ CLAIMED = {
  "C16": ("trace validation with ghost liquidation block", "restriction mode: ghost 'liquidated in this block' + stored block stamp decide must-fail / must-not-be-restricted"),
  "C17": ("trace validation (query then execute)", "quoted amount = executed amount, exact requested side, slippage limit iff, limit forwarded unchanged by the engine"),
  "C18": ("trace validation (TWAP bounds)", "vAMM and price-feed TWAPs within the snapshot/round prices overlapping the window; one snapshot per block with final reserves; latest / n-back queries exact"),
+ "C07": ("trace validation with TLA+ enabling condition", "Liquidate issued in a state where the specification's enabling condition holds (ratio below maintenance by the spec's own operators, vAMM open/registered/fillable/in band, fee ratio non-zero, fund ample) must succeed; failures matching a recorded known finding (F5, F6) are reported as KNOWN-FINDING"),
+ "C08": ("fault enumeration + trace validation", "probe-based failure injected at every sub-message index of every engine operation kind (fault sweep) plus natural failures; TLC checks storage-digest equality on failure, no swallowed sub-failure, no temporary residue"),
+ "C09": ("role matrix + trace validation", "every privileged execute variant x 8 sender kinds, before and after role transfers, executed on the real contracts; TLC checks ok => sender holds the role in the recorded pre-state, failure => digest unchanged"),
+ "C11": ("trace validation with TLA+ funding oracle", "schedule, premium fraction (vAMM TWAP - oracle TWAP recomputed by the specification), next funding time, vault<->fund transfer, and charging/checkpoint on trade, withdraw, close, reversal"),
+ "C14": ("gate matrix + trace validation", "paused x open x registered x operation matrix with live positions, shutdown from every subset of already-closed vAMMs, random registry histories with membership queries"),
+ "C19": ("TLA+ big-natural judgement of the real type's operation table", "every ordered operand pair over sign x 16 magnitudes up to 2^128-1: all operators, checked forms, predicates, display/parse/serde round trips evaluated on the real Integer and judged by TLC against BigNat arithmetic"),
+ "C20": ("configuration sequences + cap histories + trace validation", "random UpdateConfig sequences at boundary values on engine and vAMM, decimals check at registration, trades against changing caps and whitelist membership"),
 }
 NA = {
- "C07": "check being built (known findings F4-F7 to be recorded first)",
- "C08": "check being built (fault sweep driver)",
- "C09": "check being built (role matrix generator)",
- "C11": "check being built",
  "C13": "check being built (twin runner)",
- "C14": "check being built (gate matrix generator)",
- "C19": "check being built (Integer table + BigNat spec)",
- "C20": "check being built (configuration matrix generator)",
 }
 def main():
     checks = []
